@@ -15,7 +15,9 @@ from math import (
     ceil,
     cos,
     degrees,
+    frexp,
     hypot,
+    ldexp,
     log,
     radians,
     sin,
@@ -5469,13 +5471,17 @@ class Arc(Curve):
         dy = (start.imag - end.imag) / 2
         # Work in units of a power of two near the largest length (an exact rescaling), so that the
         # squares below neither overflow nor underflow for very large or very small arcs.
-        unit = 2.0 ** ceil(log(max(abs(dx), abs(dy), rx, ry), 2))
-        if unit == 0 or unit != unit or unit == float("inf"):
-            unit = 1.0
+        largest = max(abs(dx), abs(dy), rx, ry)
+        if largest != largest or largest == float("inf"):
+            raise ValueError("Arc parameters are out of range.")
+        unit = ldexp(1.0, frexp(largest)[1] - 1)  # unit <= largest < 2 * unit
         dx /= unit
         dy /= unit
         rx /= unit
         ry /= unit
+        if rx * rx == 0 or ry * ry == 0:
+            # One length is more than 1e150 times another: no centre form in double precision.
+            raise ValueError("Arc parameters are out of range.")
         x1prim = cosr * dx + sinr * dy
         x1prim_sq = x1prim * x1prim
         y1prim = -sinr * dx + cosr * dy
